@@ -169,10 +169,14 @@ mod register {
     pub struct RegisterCtx<L: Locale>(Arc<Mutex<RegisterCtxMap<L, L::TranslationUnitId>>>);
 
     impl<L: Locale> RegisterCtx<L> {
-        pub fn provide_context() -> Self {
+        /// `None` inside another provider: the units used there are registered in (and embedded by) the outer one.
+        pub fn provide_context() -> Option<Self> {
+            if use_context::<Self>().is_some() {
+                return None;
+            }
             let inner = Arc::new(Mutex::new(HashMap::new()));
             provide_context(RegisterCtx(inner.clone()));
-            RegisterCtx(inner)
+            Some(RegisterCtx(inner))
         }
 
         pub fn register<T: TranslationUnit<Locale = L>>() {
